@@ -150,4 +150,86 @@ def restoreOrder (index : List Nat) (a : List β) : List β := gather (argsortNa
 
 end
 
+/-! ### the chains files MultiNest / PolyChord leave behind (what `store_nest_solutions` / `store_polychord_solutions`
+     read back before they summarise): `<base>.txt` / `1-.txt` / `clusters/1-_k.txt` are tables whose rows are
+     `weight, -2 logL, parameter values…`; `<base>post_separate.dat` lists the samples mode by mode -/
+
+section
+variable {α : Type} [OfNat α 0]
+
+/-- the samples of a chains table: `data[:, 2:]` -/
+def tableSamples (rows : List (List α)) : List (List α) := rows.map (fun r => r.drop 2)
+
+/-- `data[:, 2:num_fit_params+2]` (PolyChord: the derived parameters that follow are cut off) -/
+def tableSamplesN (nfit : Nat) (rows : List (List α)) : List (List α) := rows.map (fun r => (r.drop 2).take nfit)
+
+/-- the weights of a chains table: `data[:, 0]` -/
+def tableWeights (rows : List (List α)) : List α := rows.map (fun r => r.getD 0 0)
+
+/-- one line of `post_separate.dat` as the reader sees it: is it exactly `"\n"` (an empty line), and the numbers
+    `float(x) for x in line.split()` -/
+structure PLine (α : Type) where
+  blank : Bool
+  toks : List α
+
+/-- state of the line loop: the finished modes (samples, weights), the chains of the mode being read, whether the two
+    previous lines were empty, the index of the next line -/
+structure SplitState (α : Type) where
+  modes : List (List (List α))
+  weights : List (List α)
+  chains : List (List α)
+  cw : List α
+  prev1 : Bool
+  prev2 : Bool
+  idx : Nat
+
+/-- one pass of `for idx, line in enumerate(lines)`: from the fourth line on, two EMPTY lines before this one close the
+    mode; then a line with more than two tokens is a sample (`tokens[2:]`) with weight `tokens[0]` -/
+def splitStep (st : SplitState α) (l : PLine α) : SplitState α :=
+  let st1 : SplitState α :=
+    if 2 < st.idx ∧ st.prev1 = true ∧ st.prev2 = true then
+      { st with modes := st.modes ++ [st.chains], weights := st.weights ++ [st.cw], chains := [], cw := [] }
+    else st
+  let chain := l.toks.drop 2
+  let st2 : SplitState α :=
+    if 0 < chain.length then { st1 with chains := st1.chains ++ [chain], cw := st1.cw ++ [l.toks.getD 0 0] } else st1
+  { st2 with prev1 := l.blank, prev2 := st.prev1, idx := st.idx + 1 }
+
+/-- the modes of `post_separate.dat`: per mode its samples and its weights (after the last line the open mode is closed) -/
+def splitModes (lines : List (PLine α)) : List (List (List α)) × List (List α) :=
+  let st := lines.foldl splitStep
+    { modes := [], weights := [], chains := [], cw := [], prev1 := false, prev2 := false, idx := 0 }
+  (st.modes ++ [st.chains], st.weights ++ [st.cw])
+
+/-- a row written into a zero row of `n` entries: numpy accepts a row of `n` values or ONE value (broadcast) and raises
+    otherwise (totalised: the zeros stay) -/
+def fitRow (n : Nat) (v : List α) : List α :=
+  if v.length = n then v else
+    match v with
+    | [x] => List.replicate n x
+    | _ => List.replicate n 0
+
+/-- `mode_array = np.zeros((len(mode), len(mode[0])))`, `mode_array[idx, :] = line` for every sample -/
+def modeArray (mode : List (List α)) : List (List α) := mode.map (fitRow (mode.headD []).length)
+
+/-- `store_nest_solutions`, `multimodes = False`: one solution, read from `<base>.txt` -/
+def nestChainsSingle (data : List (List α)) : List (List (List α)) × List (List α) :=
+  ([tableSamples data], [tableWeights data])
+
+/-- `store_nest_solutions`, `multimodes = True`: one solution per mode of `post_separate.dat` -/
+def nestChainsModes (lines : List (PLine α)) : List (List (List α)) × List (List α) :=
+  ((splitModes lines).1.map modeArray, (splitModes lines).2)
+
+/-- `store_polychord_solutions`: without clustering, or with one cluster, the table `1-.txt`; otherwise one solution per
+    cluster file `clusters/1-_k.txt`, `k = 1 … nClusters` (`cluster k` = the table of the file numbered `k + 1`) -/
+def polyChains (nfit : Nat) (doClustering : Bool) (nClusters : Nat) (data : List (List α))
+    (cluster : Nat → List (List α)) : List (List (List α)) × List (List α) × Nat :=
+  if doClustering then
+    if nClusters = 1 then ([tableSamplesN nfit data], [tableWeights data], 1)
+    else ((List.range nClusters).map (fun k => tableSamplesN nfit (cluster k)),
+          (List.range nClusters).map (fun k => tableWeights (cluster k)), nClusters)
+  else ([tableSamplesN nfit data], [tableWeights data], 1)
+
+end
+
 end Taurex.Posterior
